@@ -254,6 +254,16 @@ fn check(case: &Case, full_limit: usize) -> CaseResult {
     let raw: &RawVector = bv.as_ref();
     ensure_eq!(raw.len(), n, "BitVector.as_ref", "raw length");
     ensure_eq!(raw.count_ones(), m, "BitVector.as_ref", "raw count_ones");
+    // clone_from() onto a vector with other bits and supports gives the same vector: nothing cached in the target may survive
+    {
+        let mut other = BitVector::from(RawVector::with_len(n / 2 + 77, true));
+        other.enable_rank();
+        other.enable_select();
+        other.clone_from(&bv);
+        ensure!(other == bv, "BitVector.clone_from", "clone_from() result != source");
+        let small = Plan::sampled(&model, 20, &[], &[], if n <= 3000 { usize::MAX } else { 0 });
+        check_bitvec(&other, &model, &small, "BitVector(clone_from)")?;
+    }
     // and converting back gives the raw vector the bits were pushed into
     let back = RawVector::from(bv.clone());
     ensure!(back == raw_by_push_bit(&bits), "RawVector.from(BitVector)", "RawVector::from(BitVector) differs from the {} bits pushed one by one (route {})", n, case.route % NUM_ROUTES);
